@@ -2,7 +2,7 @@
 /verif/seeded/<name>/:  python selftest/adopt_seed.py /tmp/wt_c02 c02-flatten-transpose C02
 Checks (all run against the WORKTREE through PYTHONPATH=<wt>/Lib, never against /repo):
   1. the change is a non-empty diff under Lib/;
-  2. demo.py exits 1 with the change and 0 without it (git stash);
+  2. demo.py exits 1 with the change and 0 without it;
   3. the repository's own test suite passes with the change."""
 import json
 import os
@@ -29,11 +29,16 @@ def main():
     r = sh("/venv/bin/python demo.py", wt, env)
     ran["demo_with_change_rc"] = r.returncode
     ran["demo_with_change_tail"] = (r.stdout + r.stderr)[-600:]
-    sh("git stash", wt)
+    # (not `git stash`: the stash is shared by all worktrees of one repository)
+    keep = os.path.join(wt, ".adopt_change.diff")
+    open(keep, "w").write(diff)
+    sh("git checkout -- Lib", wt)
     try:
         r0 = sh("/venv/bin/python demo.py", wt, env)
     finally:
-        sh("git stash pop", wt)
+        sh("git apply .adopt_change.diff", wt)
+        os.unlink(keep)
+    assert sh("git diff -- Lib", wt).stdout == diff
     ran["demo_without_change_rc"] = r0.returncode
     r2 = sh("/venv/bin/python -m pytest -q -p no:cacheprovider tests 2>&1 | tail -3", wt, env)
     ran["suite_tail"] = r2.stdout[-300:]
